@@ -247,6 +247,37 @@ def run(tier, seed):
             stats["cross_store_chains"] = stats.get("cross_store_chains", 0) + (1 if len(set(cls)) > 1 else 0)
             if len(rep.samples) < 2:
                 rep.samples.append(dict(meta, provenance=provs))
+        # a partition staged on disk hands out a NEW object for every key it is asked for (nothing keeps the previous one
+        # alive): many own keys with distinct values of the same size, each must read back its own value
+        for ti, cache in enumerate([False, True]):
+            path = os.path.join(scratch, "pmany%d" % ti)
+            fnlib.set_env(m, scratch, {"fc": (FilesystemStorageBackend(path=path, memory_cache_mb=1 if cache else None), None), "fc2": (FilesystemStorageBackend(path=path + "-other"), None)})
+            mchain = [[["k%02d" % j, {"k": "str", "v": "v%d" % (5000 + j)} if j % 3 else {"k": "nd", "v": [5000 + j, 0], "dtype": "int64", "shape": [2]}, 5000 + j] for j in range(18)],
+                      [["k%02d" % j, {"k": "str", "v": "v%d" % (6000 + j)}, 6000 + j] for j in range(0, 18, 2)]]
+            meta = {"chain(root first)": [[(k, vid) for k, _, vid in own] for own in mchain], "ondisk": [True, True], "cache": cache}
+            stats["many_key_ondisk"] = stats.get("many_key_ondisk", 0) + 1
+            try:
+                for upto in (0, 1):
+                    spm = spec_for(mchain, upto, [True, True], 9100 + ti * 2 + 1)      # (odd tag: keys assigned once)
+                    first = fnmod.pnode_fn(spm)(spm)
+                    got1 = read_partition(first)[0]
+                    fnlib.set_env(m, scratch, {"fc": (FilesystemStorageBackend(path=path, memory_cache_mb=1 if cache else None), None), "fc2": (FilesystemStorageBackend(path=path + "-other"), None)})
+                    got2 = read_partition(fnmod.pnode_fn(spm)(spm))[0]
+                    want = overlay(mchain, upto)
+                    for label, got in (("first-call value", got1), ("fresh backend", got2)):
+                        if got != want:
+                            bad = sorted(k for k in want if got.get(k) != want[k])
+                            rep.violation("C17:value-under-wrong-key:on-disk-many-keys", "on-disk partition with %d own keys (link %d), read through %s: %d keys hold another value, e.g. %s=%r (expected %r)"
+                                          % (len(mchain[upto]), upto, label, len(bad), bad[0], got.get(bad[0]), want[bad[0]]), meta)
+                            break
+                    first = None
+            except Exception as e:
+                rep.violation("C17:many-keys-raised", "%s: %s" % (type(e).__name__, str(e)[:150]), meta)
+            first = None
+            import gc as _gc
+            _gc.collect()
+            shutil.rmtree(path, ignore_errors=True)
+            shutil.rmtree(path + "-other", ignore_errors=True)
         # own keys win also when the own value is EQUAL for Python to the parent's but another value (1 / True / 1.0, the same
         # string): the stored child reads back the child's values, type included
         tchain = [[["a", {"k": "int", "v": 1}, 1], ["b", {"k": "int", "v": 2}, 2], ["c", {"k": "str", "v": "v3"}, 3], ["d", {"k": "float", "v": (1.0).hex()}, 1]],
